@@ -8,7 +8,9 @@ CLAIMED = {
         "DecodeRPCCall and the two connection loops of server.go; TLC shows that a record-marking server completes the session NULL, MNT, "
         "GETATTR for every xid / fragmentation / auth flavour and that a raw server never produces a record the client accepts. The harness "
         "starts real servers through Export, Listen (with and without UseRecordMarking) and StartWithPortmapper x port 0 / explicit port x "
-        "debug / read-only and runs an independent RFC-1831 client over loopback TCP; TLC validates every recorded call against the spec.",
+        "debug / read-only and runs an independent RFC-1831 client over loopback TCP (one write per record, two fragments, header and body "
+        "in separate segments, a fragment body split over two segments, the whole stream dribbled 5 bytes at a time; the spec delivers the "
+        "client's bytes to the server in segments of any size); TLC validates every recorded call against the spec.",
    note="StartWithPortmapper needs port 111 (skipped and noted when it cannot be bound); only loopback TCP; TLS listeners belong to C30; "
         "the MNT path is \"/\" (the only path MNT resolves); Export not speaking record marking is the listed finding F20"),
  "C27": dict(cat=MC, engine="Portmap", design="5/C27",
@@ -38,11 +40,12 @@ CLAIMED = {
         "force (accepted either way); four listed findings F16, F16b, F16c, F16d"),
  "C30": dict(cat=MC, engine="TLSPolicy", design="5/C30",
    technique="TLA+ spec TLSPolicy (Accepts, server/client version sets, ClientAuth admission, certificate holders of every TLSConfig object; "
-             "TLC exhaustive) + TLC-generated vectors (TLSGen: 250 configurations x 40 clients) replayed as real crypto/tls handshakes against "
+             "TLC exhaustive) + TLC-generated vectors (TLSGen: up to 1000 configurations x 40 clients) replayed as real crypto/tls handshakes against "
              "Server.Listen + rotation histories, validated by TLSTrace",
    text="Validate/BuildConfig are transcribed as Accepts(cfg), ServerVersions(cfg) and CertAdmitted(cfg, cert); TLC checks Floor (no completed "
         "handshake below TLS 1.2), Mutual (RequireAndVerify admits only certificates of the configured CA) and Rotation over all configurations x "
-        "clients x rotate/reload interleavings. The same operators generate the vectors; the harness starts a real TLS listener per configuration "
+        "clients x rotate/reload interleavings (reload through settings fetched after Listen, fetched before Listen and kept, or the caller's "
+        "object). The configurations include InsecureSkipVerify and a cipher-suite list, which must not change what the listener admits. The same operators generate the vectors; the harness starts a real TLS listener per configuration "
         "(certificates made with crypto/x509), performs real handshakes with clients restricted to each version range and certificate kind, "
         "counts a handshake as completed only when a NULL call is answered, rotates certificates on disk and reloads through "
         "GetExportOptions().TLS; TLC validates every recorded outcome (verdict: the three clauses; drift: exact outcome and version).",
